@@ -1,8 +1,337 @@
-//! C18 runner (stub). Replace the body; keep the signature `pub fn run(args: &[String])`.
-#[allow(unused_imports)]
-use crate::common::{catch, each_line, opt_i64};
+//! C18: drive a REAL `IncanLanguageServer` through `tower_lsp::LspService` on a current-thread tokio
+//! runtime, following a model schedule step by step.
+//!
+//! stdin: one JSON case per line
+//!   {"docs": ["file:///.../a.incn", ...],                      watched documents (index = model uri)
+//!    "history": [["open",u,ver,text] | ["change",u,ver,text] | ["close",u], ...],
+//!    "schedule": [k, k, ...],                                  handler (arrival index) that runs next
+//!    "hover": [line, character]}
+//! stdout: one JSON result per line
+//!   {"gates":bool, "legal":bool, "quiescent":bool, "blocked_at":i|null,
+//!    "trace":[{"docs":[[ver,text]|null,...]|"locked"|null, "lock":0|1|2|null, "npubs":n, "done":bool}, ...],
+//!    "pubs":[[uri, ver|null, [message,...]], ...], "hover":[string|null,...]|null, "error":string|null}
+//!
+//! With the gate hook in /repo (src/lsp/verif_gate.rs, cfg incan_verif) and this crate built with
+//! `--cfg incan_verif_gates`, every handler future runs inside `HANDLER.scope(k, ..)` and parks at
+//! each gate; a schedule step opens handler k's gate and polls it ONCE, so it executes exactly one
+//! atomic segment. A handler that is pending but not parked is waiting for the RwLock: the step was
+//! not enabled (`legal:false, blocked_at`). Without gates a handler runs to completion on its first
+//! poll (tower-lsp's client channel never back-pressures): only sequential schedules are realised;
+//! later steps of an already finished handler are no-ops.
+use crate::common::each_line;
+use futures_util::StreamExt;
+use serde_json::{json, Value};
+use std::future::Future;
+use std::pin::Pin;
+use tower_lsp::jsonrpc::{Request, Response};
+use tower_lsp::{ClientSocket, LspService};
+use tower_service::Service;
+
+type Fut = Pin<Box<dyn Future<Output = Option<Response>>>>;
+
+#[cfg(incan_verif_gates)]
+mod gates {
+    use incan::lsp::backend::DocumentState;
+    use incan::lsp::verif_gate as g;
+    use std::collections::HashMap;
+    use std::future::Future;
+    use std::sync::Arc;
+    use tokio::sync::RwLock;
+    use tower_lsp::lsp_types::Url;
+
+    pub const ON: bool = true;
+    pub type Docs = Arc<RwLock<HashMap<Url, DocumentState>>>;
+    pub fn capture(s: &incan::lsp::IncanLanguageServer) -> Option<Docs> {
+        Some(s.verif_documents())
+    }
+    pub fn scoped<F: Future + 'static>(k: u64, f: F) -> std::pin::Pin<Box<dyn Future<Output = F::Output>>> {
+        Box::pin(g::HANDLER.scope(k, f))
+    }
+    pub fn open(k: u64) -> bool {
+        g::open_handler(k).is_some()
+    }
+    pub fn parked(k: u64) -> Option<String> {
+        g::waiting().into_iter().find(|w| w.0 == k).map(|w| w.1.to_string())
+    }
+    pub fn reset() {
+        g::reset()
+    }
+    /// (documents as [version, text] per watched uri | None when write-locked, lock code)
+    pub fn observe(docs: &Docs, watched: &[Url]) -> (Option<Vec<Option<(i64, String)>>>, i64) {
+        let lock = if docs.try_write().is_ok() {
+            0
+        } else if docs.try_read().is_ok() {
+            1
+        } else {
+            2
+        };
+        let view = docs.try_read().ok().map(|m| {
+            watched
+                .iter()
+                .map(|u| m.get(u).map(|d| (d.version as i64, d.source.clone())))
+                .collect()
+        });
+        (view, lock)
+    }
+}
+
+#[cfg(not(incan_verif_gates))]
+mod gates {
+    use std::future::Future;
+    use tower_lsp::lsp_types::Url;
+
+    pub const ON: bool = false;
+    pub type Docs = ();
+    pub fn capture(_s: &incan::lsp::IncanLanguageServer) -> Option<Docs> {
+        None
+    }
+    pub fn scoped<F: Future + 'static>(_k: u64, f: F) -> std::pin::Pin<Box<dyn Future<Output = F::Output>>> {
+        Box::pin(f)
+    }
+    pub fn open(_k: u64) -> bool {
+        false
+    }
+    pub fn parked(_k: u64) -> Option<String> {
+        None
+    }
+    pub fn reset() {}
+    pub fn observe(_d: &Docs, _w: &[Url]) -> (Option<Vec<Option<(i64, String)>>>, i64) {
+        (None, -1)
+    }
+}
+
+fn note_request(n: &Value, docs: &[String]) -> Result<(Request, usize), String> {
+    let a = n.as_array().ok_or("note must be an array")?;
+    let kind = a.first().and_then(|v| v.as_str()).ok_or("note kind")?;
+    let u = a.get(1).and_then(|v| v.as_u64()).ok_or("note uri")? as usize;
+    let uri = docs.get(u).ok_or("uri index")?.clone();
+    let req = match kind {
+        "open" => Request::build("textDocument/didOpen")
+            .params(json!({"textDocument": {"uri": uri, "languageId": "incan", "version": a[2], "text": a[3]}}))
+            .finish(),
+        "change" => Request::build("textDocument/didChange")
+            .params(json!({"textDocument": {"uri": uri, "version": a[2]}, "contentChanges": [{"text": a[3]}]}))
+            .finish(),
+        "close" => Request::build("textDocument/didClose")
+            .params(json!({"textDocument": {"uri": uri}}))
+            .finish(),
+        other => return Err(format!("unknown note kind {}", other)),
+    };
+    Ok((req, u))
+}
+
+fn call(service: &mut LspService<incan::lsp::IncanLanguageServer>, req: Request) -> impl Future<Output = Option<Response>> + 'static {
+    let fut = service.call(req);
+    async move { fut.await.ok().flatten() }
+}
+
+/// Collect every publishDiagnostics queued on the client socket (never blocks).
+async fn drain(socket: &mut ClientSocket, docs: &[String], pubs: &mut Vec<Value>) -> usize {
+    let mut n = 0;
+    loop {
+        n += 1;
+        match futures_util::poll!(socket.next()) {
+            std::task::Poll::Ready(Some(req)) => {
+                if req.method() != "textDocument/publishDiagnostics" {
+                    continue;
+                }
+                let p = req.params().cloned().unwrap_or(Value::Null);
+                let uri = p.get("uri").and_then(|v| v.as_str()).unwrap_or("");
+                let idx = docs.iter().position(|d| d == uri).map(|i| json!(i)).unwrap_or(json!(uri));
+                let msgs: Vec<Value> = p
+                    .get("diagnostics")
+                    .and_then(|d| d.as_array())
+                    .map(|ds| {
+                        ds.iter()
+                            .map(|d| {
+                                let r = &d["range"]["start"];
+                                json!(format!("{}:{}:{}", r["line"], r["character"], d["message"].as_str().unwrap_or("")))
+                            })
+                            .collect()
+                    })
+                    .unwrap_or_default();
+                pubs.push(json!([idx, p.get("version").cloned().unwrap_or(Value::Null), msgs]));
+            }
+            _ => break,
+        }
+    }
+    n - 1
+}
+
+async fn hover_all(
+    service: &mut LspService<incan::lsp::IncanLanguageServer>,
+    docs: &[String],
+    pos: &Value,
+) -> Vec<Value> {
+    let mut out = Vec::new();
+    for (i, uri) in docs.iter().enumerate() {
+        let req = Request::build("textDocument/hover")
+            .id(1000 + i as i64)
+            .params(json!({"textDocument": {"uri": uri}, "position": {"line": pos[0], "character": pos[1]}}))
+            .finish();
+        let mut fut: Fut = Box::pin(tokio::task::unconstrained(call(service, req)));
+        match futures_util::poll!(fut.as_mut()) {
+            std::task::Poll::Ready(Some(resp)) => {
+                let (_, body) = resp.into_parts();
+                out.push(match body {
+                    Ok(v) => v.get("contents").and_then(|c| c.get("value")).cloned().unwrap_or(Value::Null),
+                    Err(e) => json!(format!("error: {}", e)),
+                });
+            }
+            std::task::Poll::Ready(None) => out.push(Value::Null),
+            std::task::Poll::Pending => out.push(json!("<blocked>")),
+        }
+    }
+    out
+}
+
+async fn run_case(case: &Value) -> Value {
+    let docs: Vec<String> = case["docs"].as_array().map(|a| a.iter().filter_map(|v| v.as_str().map(String::from)).collect()).unwrap_or_default();
+    let watched: Vec<tower_lsp::lsp_types::Url> = docs.iter().filter_map(|d| tower_lsp::lsp_types::Url::parse(d).ok()).collect();
+    let history: Vec<Value> = case["history"].as_array().cloned().unwrap_or_default();
+    let schedule: Vec<i64> = case["schedule"].as_array().map(|a| a.iter().filter_map(|v| v.as_i64()).collect()).unwrap_or_default();
+    // "natural": no automatic draining and a step is ONE poll (re-polling a handler that waits for the
+    // lock or for its flush is allowed); the entry -1 drains the client socket. Used to replay the
+    // stale store on the unpatched server, where the only suspension points are tower-lsp's own.
+    let natural = case["natural"].as_bool().unwrap_or(false);
+    gates::reset();
+    let mut captured: Option<gates::Docs> = None;
+    let (mut service, mut socket) = LspService::new(|c| {
+        let s = incan::lsp::IncanLanguageServer::new(c);
+        captured = gates::capture(&s);
+        s
+    });
+    // initialize + initialized (run to completion: no gates outside a HANDLER scope)
+    let init = Request::build("initialize").id(1).params(json!({"capabilities": {}})).finish();
+    let mut f: Fut = Box::pin(call(&mut service, init));
+    if futures_util::poll!(f.as_mut()).is_pending() {
+        return json!({"error": "initialize did not complete"});
+    }
+    let mut f: Fut = Box::pin(call(&mut service, Request::build("initialized").params(json!({})).finish()));
+    if futures_util::poll!(f.as_mut()).is_pending() {
+        return json!({"error": "initialized did not complete"});
+    }
+    let mut pubs: Vec<Value> = Vec::new();
+    drain(&mut socket, &docs, &mut pubs).await;
+    pubs.clear();
+
+    let mut handlers: Vec<Option<Fut>> = Vec::new(); // Some = in flight, None = finished
+    let mut trace: Vec<Value> = Vec::new();
+    let mut legal = true;
+    let mut blocked_at = Value::Null;
+    let mut error = Value::Null;
+    for (i, &k) in schedule.iter().enumerate() {
+        if k < 0 {
+            drain(&mut socket, &docs, &mut pubs).await;
+            trace.push(json!({"drain": true, "npubs": pubs.len()}));
+            continue;
+        }
+        let k = k as usize;
+        let started = handlers.len();
+        let mut noop = false;
+        if k < started {
+            if handlers[k].is_none() {
+                if gates::ON || natural {
+                    legal = false;
+                    blocked_at = json!(i);
+                    break;
+                }
+                noop = true; // no gates: the handler finished on its first poll
+            } else if natural {
+                // just poll again
+            } else if !gates::open(k as u64) {
+                legal = false;
+                blocked_at = json!(i);
+                error = json!("in-flight handler is not parked at a gate");
+                break;
+            }
+        } else if k == started && handlers.iter().filter(|h| h.is_some()).count() < 4 && k < history.len() {
+            match note_request(&history[k], &docs) {
+                Ok((req, _)) => {
+                    let f = tokio::task::unconstrained(call(&mut service, req));
+                    // natural mode: outside a HANDLER scope every gate is a no-op
+                    handlers.push(Some(if natural { Box::pin(f) as Fut } else { gates::scoped(k as u64, f) }))
+                }
+                Err(e) => return json!({"error": e}),
+            }
+        } else {
+            legal = false;
+            blocked_at = json!(i);
+            break;
+        }
+        if !noop {
+            // one atomic segment: poll until the handler is parked at its next gate, finished, or
+            // waiting for the RwLock. `client.publish(..).await` = enqueue + flush; the flush completes
+            // only once the receiver has caught up, so the socket is drained between polls.
+            loop {
+                let fut = handlers[k].as_mut().unwrap();
+                match futures_util::poll!(fut.as_mut()) {
+                    std::task::Poll::Ready(_) => {
+                        handlers[k] = None;
+                        break;
+                    }
+                    std::task::Poll::Pending => {
+                        if gates::parked(k as u64).is_some() {
+                            break;
+                        }
+                        if natural {
+                            break;
+                        }
+                        if drain(&mut socket, &docs, &mut pubs).await == 0 {
+                            // pending, not at a gate, nothing to flush: waiting for the RwLock => not enabled
+                            legal = false;
+                            blocked_at = json!(i);
+                            break;
+                        }
+                    }
+                }
+            }
+            if !legal {
+                break;
+            }
+        }
+        if !natural {
+            drain(&mut socket, &docs, &mut pubs).await;
+        }
+        let done = handlers[k].is_none();
+        let (view, lock) = match &captured {
+            Some(d) => gates::observe(d, &watched),
+            None => (None, -1),
+        };
+        let docs_json = match (&captured, view) {
+            (Some(_), Some(v)) => json!(v.into_iter().map(|o| o.map(|(ver, s)| json!([ver, s])).unwrap_or(Value::Null)).collect::<Vec<_>>()),
+            (Some(_), None) => json!("locked"),
+            (None, _) => Value::Null,
+        };
+        let mut entry = json!({"docs": docs_json, "lock": if lock < 0 { Value::Null } else { json!(lock) }, "npubs": pubs.len(), "done": done});
+        if !gates::ON && done && !natural {
+            // without the accessor the stored text is observed through hover (lock is free here)
+            entry["hover"] = json!(hover_all(&mut service, &docs, &case["hover"]).await);
+        }
+        trace.push(entry);
+    }
+    let quiescent = legal && handlers.len() == history.len() && handlers.iter().all(|h| h.is_none());
+    if natural {
+        drain(&mut socket, &docs, &mut pubs).await;
+    }
+    let hover = if quiescent { json!(hover_all(&mut service, &docs, &case["hover"]).await) } else { Value::Null };
+    drop(handlers);
+    gates::reset();
+    json!({"gates": gates::ON, "legal": legal, "quiescent": quiescent, "blocked_at": blocked_at, "trace": trace,
+           "pubs": pubs, "hover": hover, "error": error})
+}
 
 pub fn run(_args: &[String]) {
-    eprintln!("c18: runner not implemented");
-    std::process::exit(2);
+    let rt = tokio::runtime::Builder::new_current_thread().enable_all().build().expect("runtime");
+    each_line(|line| {
+        let case: Value = match serde_json::from_str(line) {
+            Ok(v) => v,
+            Err(e) => return json!({"error": format!("bad case: {}", e)}).to_string(),
+        };
+        let r = std::panic::catch_unwind(std::panic::AssertUnwindSafe(|| rt.block_on(run_case(&case))));
+        match r {
+            Ok(v) => v.to_string(),
+            Err(_) => json!({"error": "panic"}).to_string(),
+        }
+    });
 }
